@@ -163,8 +163,13 @@ def _geno_event(alleles, space):
     # the state is restored into a CARRIER object whose previous content varies (empty, other ploidy, other alleles):
     # restoring must overwrite whatever the object held before
     h = Genotype(_carrier(alleles))
+    if (len(alleles) + sum(alleles)) % 2 == 0:
+        # observe -> restore -> observe on ONE object: whatever the carrier reported about itself before must not survive
+        h.get_index(), hash(h), h.__getstate__()
     h.__setstate__(st)
-    return {"ev": "Geno", "alleles": list(alleles), "idx": int(g.get_index()), "vec": [int(x) for x in g.as_vector()],
+    bst = h.__getstate__()
+    extra = {"bidx": int(h.get_index()), "bstate": [int(bst[0]), int(bst[1])], "bhash": hash(h) == hash(g)}
+    return {**extra, "ev": "Geno", "alleles": list(alleles), "idx": int(g.get_index()), "vec": [int(x) for x in g.as_vector()],
             "ploidy": int(g.get_ploidy()), "back": [int(x) for x in h.as_vector()],
             "hom": bool(g.is_homozygous()), "none": bool(g.is_none()), "space": space}
 
